@@ -1621,9 +1621,7 @@ class rx:
         self._root._dirty_obj = True
         self._error_state = None
 
-    async def _resolve_async(self, obj):
-        import asyncio
-        self._current_task = task = asyncio.current_task()
+    async def _resolve_async(self, obj, task):
         if inspect.isasyncgen(obj):
             async for val in obj:
                 if self._current_task is not task:
@@ -1640,7 +1638,11 @@ class rx:
         from .parameterized import async_executor
         if inspect.isgenerator(obj):
             obj = _to_async_gen(obj)
-        async_executor(partial(self._resolve_async, obj))
+        # The evaluation supersedes the pending ones from the moment it is
+        # scheduled, not only once its task starts running: a result that
+        # completes in the meantime belongs to an outdated input.
+        self._current_task = task = object()
+        async_executor(partial(self._resolve_async, obj, task))
 
     def _resolve(self):
         if self._error_state:
